@@ -68,6 +68,10 @@ pub trait HasChildren: HasContext {
 
     fn insert_before(&self, value: Rc<XmlItem>, id: usize) -> error::Result<Rc<XmlItem>> {
         self.child_index(id).ok_or(error::Error::OufOfIndex(id))?;
+        // Inserting a node before itself changes nothing.
+        if value.id() == id {
+            return Ok(value);
+        }
         let value = self.insert_by_id(value, Some(id))?;
         value.set_order_before(id);
         Ok(value)
@@ -1588,7 +1592,12 @@ impl HasChildren for XmlDocument {
                 }
             }
             XmlItem::Element(_) => {
-                if self.document_element().is_ok() {
+                // A second document element is refused; moving the document element itself is not.
+                let other = self
+                    .document_element()
+                    .map(|v| v.borrow().id() != value.id())
+                    .unwrap_or(false);
+                if other {
                     Err(error::Error::InvalidType)
                 } else {
                     add_or_insert(self, value.clone(), id);
